@@ -57,6 +57,7 @@ type Exemption struct {
 }
 
 type Analysis struct {
+	pairNeedle *ssa.Parameter // set while the accept sets of a (set, byte) helper are collected
 	P     *core.Program
 	Root  *ssa.Function
 	Scope map[*ssa.Function]bool
